@@ -15,6 +15,21 @@ CHECKS = {
             "DESIGN.md section 4, C05"),
 }
 
+CHECKS.update({
+    "C01": ("Hypothesis-generated rulebooks/config chains; patches executed on a reference device simulator (model-based oracle)",
+            "Generated rulebooks over the whole rule language, device trees and chains of up to 4 targets; every emitted patch is executed "
+            "command by command on an independent device simulator and must reach the target, after which the second diff and patch must be "
+            "empty. Exploration: held on every generated chain; says nothing about rulebooks outside the generator's grammar.",
+            "Trusted: vf/model/devsim.py + refmatch.py (device semantics per (rule,key)); block rows fully keyed; sibling rules disjoint.",
+            "DESIGN.md section 4, C01"),
+    "C03": ("Hypothesis-generated rulebooks/config pairs; projection laws, validity predicate for %ordered, and round-trip of both text views",
+            "For generated (rulebook, old, new): the diff projects back to old and to new, ops are exact, self-diff is empty, %ordered groups "
+            "satisfy a validity predicate, and formatter.diff (7 vendor formatters) and the `annet diff` view re-read by an independent "
+            "signed-text parser give the same entries. Exploration over generated inputs.",
+            "Trusted: the independent signed-text readers in vf/props/c03.py; vendor %diff_logic functions out of scope as stated.",
+            "DESIGN.md section 4, C03"),
+})
+
 NOT_YET = {}
 
 
